@@ -2,7 +2,7 @@
 
 Generic table/trace flow (tablecheck.table_check). Family-specific:
   * sig_extra: the witness signature uses the implementation-level operation name ("how": Allocate,
-    LoadFromStore, RemoveSession, ...) as last_op / ops, so known findings can be matched narrowly;
+    LoadFromStore, RemoveSession, DISCOVER+REQUEST, ...) as last_op / ops, so known findings can be matched narrowly;
   * the design configurations depend on the tier;
   * evidence post-processing (long sample vectors truncated, explorer counters added).
 """
@@ -19,10 +19,14 @@ DESIGN_THOROUGH = DESIGN_QUICK + [("KeyMapsDesign", "MC_design_unique3.cfg", 16)
 
 def sig_extra(sig):
     evs = sig.get("events") or []
-    hows = [e.get("how") or e.get("op") for e in evs]
+    # dhcp.Server-circuit: an exchange of a client whose lease is recorded on ANOTHER circuit is labelled ":moved", and
+    # histories containing one form their own violation group (a finding about moved clients hides nothing else)
+    hows = [(e.get("how") or e.get("op") or "") + (":moved" if e.get("moved") else "") for e in evs]
     out = dict(ops=sorted(set(h for h in hows if h)))
     if hows:
         out["last_op"] = hows[-1]
+    if any(e.get("moved") for e in evs):
+        out["group_extra"] = "moved"
     return out
 
 
@@ -73,12 +77,13 @@ CHECKS = {
             "VLANAllocator has no reverse getter: its per-outer-tag usage map is read by reflection as the reverse lookup; SessionManager.nextID is pre-set by reflection to cross the 16-bit wrap",
             "attribute indexes (by-MAC where two live objects may share the MAC) are judged by the weaker index contract: no stale / dangling entry, the bound key leads to a holder, a release redirects no other key; an older holder need not be found again after the newer one is gone",
             "LoadFromStore is driven with in-range stored pairs (duplicate, conflicting and re-loaded records); addresses are never shared between slots of the store indexes (a double allocation is property C01)",
+            "dhcp.Server relay circuit-id index (leases / leasesByCircuitID, read by reflection): real relayed DHCPv4 messages (giaddr, option 82 with circuit-id and remote-id; the remote-id of every circuit is the circuit-id of another one) through the packet handler in testing/synctest virtual time; forward = circuit-id recorded in the client's lease-table entry, reverse = client whose lease the index names (-1 when that lease object is not the lease table's); a DISCOVER+REQUEST on a circuit whose index entry names another client's lease is a move of the lease (contract op load over the two clients: the result must be a consistent map); [home] every client has one circuit (two clients share one), [roam] every client on every circuit, without time events; address-pool exhaustion is not reached (/23 pool)",
             "circuit-id keys: injectivity is judged on generated corpora (all byte strings <= 2 bytes, relay-style text <= 32 bytes, random 3..64 bytes, pairs sharing a 32-byte prefix, one published FNV-1a collision); the fixed-length 32-byte key is handed to TLC with trailing zero bytes dropped (lossless)",
             "tables are closed under the alphabet where closed=true in per_instance_table; SessionManager tables are bounded prefixes (the id counter grows)",
         ],
         explanation="KeyMaps.tla states C20 as a partial-bijection contract (plus a weaker contract for attribute indexes); KeyMapsDesign model-checks that any answers and lookups the contract accepts "
                     "keep one subscriber per key, in range, with lookups inverse to each other, local releases and obtainable free keys. KeyMapsImpl walks transition tables extracted breadth-first "
-                    "from the real VLAN allocator, QinQ mapper, PPPoE session manager (incl. id wrap) and the by-IP/by-MAC indexes of three stores, long random chains, and the keys computed for "
+                    "from the real VLAN allocator, QinQ mapper, PPPoE session manager (incl. id wrap), the by-IP/by-MAC indexes of three stores and the relay circuit-id index of the DHCPv4 server (real DHCP exchanges), long random chains, and the keys computed for "
                     "corpora of circuit-ids, judging every answer and every forward/reverse lookup.",
     ),
 }
